@@ -146,6 +146,7 @@ func (t *labelWrappedTransport) DialAddressTimeout(addr Address, timeout time.Du
 		return nil, err
 	}
 	if err := AddLabelHeaderToStream(conn, t.label); err != nil {
+		_ = conn.Close()
 		return nil, fmt.Errorf("failed to add label header to stream: %w", err)
 	}
 	return conn, nil
@@ -157,6 +158,7 @@ func (t *labelWrappedTransport) DialTimeout(addr string, timeout time.Duration) 
 		return nil, err
 	}
 	if err := AddLabelHeaderToStream(conn, t.label); err != nil {
+		_ = conn.Close()
 		return nil, fmt.Errorf("failed to add label header to stream: %w", err)
 	}
 	return conn, nil
